@@ -82,6 +82,10 @@ func (s *pipeStream) ReassemblyComplete(msgs []*auparse.AuditMessage) {
 	for _, m := range msgs {
 		if id, ok := s.ids[m]; ok {
 			ids = append(ids, id)
+		} else if mm := vidRe.FindStringSubmatch(m.RawData); mm != nil {
+			var id int
+			fmt.Sscan(mm[1], &id)
+			ids = append(ids, id)
 		} else {
 			ids = append(ids, -1)
 		}
@@ -228,4 +232,97 @@ func pipelineRunCmd(args []string) int {
 	return 0
 }
 
-func init() { register("pipeline-run", pipelineRunCmd) }
+// ---- the cmd/audit daemon: start-up requests, then Receive -> type filter -> Reassembler.Push ----
+
+func daemonRunCmd(args []string) int {
+	fs := flag.NewFlagSet("daemon-run", flag.ExitOnError)
+	out := fs.String("out", "", "trace ndjson")
+	seed := fs.Int64("seed", 1, "seed")
+	n := fs.Int("n", 50, "runs")
+	fs.Parse(args)
+	rng := newRand(*seed, 22)
+	w := newNDWriter(*out)
+	w.write(map[string]interface{}{"k": "meta", "family": "pipeline"})
+	stats := map[string]int{}
+	for run := 1; run <= *n; run++ {
+		base := []uint32{3, 0xFFFFFFF5, rng.Uint32()}[rng.Intn(3)]
+		lines := genPipeLog(rng, base, 5+rng.Intn(25))
+		k := newSimKernel()
+		c := &libaudit.AuditClient{Netlink: k}
+		// start-up as cmd/audit does it: status, then NoWait settings and SetPID; their ACKs
+		// arrive later, in the middle of the event stream
+		k.plan = [][]simFrame{{ackFrame(0), {K: "msg", Type: 1000, Rel: "own", Payload: make([]int, 44)}}}
+		k.nreq = 0
+		if _, err := c.GetStatus(); err != nil {
+			fatal("daemon start-up: GetStatus: %v", err)
+		}
+		k.plan, k.nreq = nil, 0
+		c.SetRateLimit(0, libaudit.NoWait)
+		c.SetBacklogLimit(8192, libaudit.NoWait)
+		c.SetPID(libaudit.NoWait)
+		acks := []wireFrame{}
+		for s := uint32(2); s <= 4; s++ {
+			b := make([]byte, 20)
+			acks = append(acks, wireFrame{k: "msg", typ: 2, seq: s, payload: b})
+		}
+		// the kernel's stream: audit records (header + body as netlink payload), the ACKs, other noise
+		w.write(map[string]interface{}{"k": "reset", "trace": run})
+		for _, l := range lines {
+			typ, payload, ok := l.typ, "", l.ok
+			if l.ok {
+				payload = l.text[strings.Index(l.text, "msg=")+4:]
+			} else {
+				typ, payload = []int{1300, 1302, 1100}[rng.Intn(3)], "garbage without a header"
+			}
+			// cmd/audit only forwards types 1100..2999
+			if typ < 1100 || typ > 2999 {
+				ok = false
+			}
+			w.write(map[string]interface{}{"k": "line", "id": l.id, "ok": ok, "off": l.off, "type": typ})
+			if !l.ok {
+				payload += fmt.Sprintf(" vid=%d", l.id)
+			}
+			k.wire = append(k.wire, wireFrame{k: "msg", typ: typ, seq: 0, payload: []byte(payload)})
+			if len(acks) > 0 && rng.Intn(4) == 0 {
+				k.wire = append(k.wire, acks[0])
+				acks = acks[1:]
+			}
+			if rng.Intn(10) == 0 {
+				k.wire = append(k.wire, wireFrame{k: "msg", typ: []int{1000, 1305, 3, 1}[rng.Intn(4)], seq: 0, payload: []byte("x")})
+			}
+			if rng.Intn(15) == 0 {
+				k.wire = append(k.wire, wireFrame{k: []string{"eintr", "short"}[rng.Intn(2)], payload: []byte{1, 2}})
+			}
+		}
+		st := &pipeStream{ids: map[*auparse.AuditMessage]int{}, w: w, off: func(seq uint32) int { return int(seq - base) }}
+		r, err := libaudit.NewReassembler([]int{1, 5, 5, 20}[rng.Intn(4)], 10000*time.Hour, st)
+		if err != nil {
+			fatal("NewReassembler: %v", err)
+		}
+		// Push parses internally, so messages are identified by the vid marker in RawData
+		st.ids = nil
+		for len(k.wire) > 0 {
+			raw, err := c.Receive(false)
+			if err != nil {
+				continue // EINTR and truncated datagrams: cmd/audit would stop; the stream goes on here
+			}
+			if raw.Type < auparse.AUDIT_USER_AUTH || raw.Type > auparse.AUDIT_LAST_USER_MSG2 {
+				continue
+			}
+			r.Push(raw.Type, raw.Data)
+			stats["forwarded"]++
+		}
+		r.Close()
+		c.Close()
+		w.write(map[string]interface{}{"k": "closed"})
+		stats["runs"]++
+	}
+	w.close()
+	printJSON(map[string]interface{}{"stats": stats})
+	return 0
+}
+
+func init() {
+	register("pipeline-run", pipelineRunCmd)
+	register("daemon-run", daemonRunCmd)
+}
